@@ -342,3 +342,57 @@ Proof.
   destruct (handle_chart_ok_spec it lts ltg cfg read start end_ name cd Hit Hcfg H) as [_ [_ [_ Hs]]].
   split; [apply Hs | exact Hs].
 Qed.
+
+(* ------------------------------------------------------------------ *)
+(* read faults (after fix 0ab09db) *)
+
+Lemma read_days_ext read read' : forall n day,
+  (forall i, (i < n)%nat -> read (day + Z.of_nat i)%Z = read' (day + Z.of_nat i)%Z) ->
+  read_days read day n = read_days read' day n.
+Proof.
+  induction n as [|n IH]; intros day H; cbn [read_days]; [reflexivity|].
+  pose proof (H 0%nat ltac:(lia)) as H0. rewrite Z.add_0_r in H0. rewrite <- H0.
+  rewrite (IH (day + 1)%Z); [reflexivity|]. intros i Hi.
+  replace (day + 1 + Z.of_nat i)%Z with (day + Z.of_nat (S i))%Z by lia. apply H. lia.
+Qed.
+
+(* a faulty reading never turns into a chart with fewer reports: if a chart is
+   produced, it is the chart of the fault-free reading *)
+Lemma faulty_read_chart it lts ltg cfg read read' start end_ name cd :
+  (forall d, read' d = read d \/ read' d = RErr) ->
+  handle_chart it lts ltg cfg read' start end_ = ChartOk name cd ->
+  handle_chart it lts ltg cfg read start end_ = ChartOk name cd.
+Proof.
+  intros Hr H. unfold handle_chart in *. destruct (Z.ltb end_ start); [discriminate|].
+  destruct (read_days read' start (Z.to_nat (end_ - start + 1))) as [| |rs] eqn:Er; try discriminate.
+  destruct (read_days_ok _ _ _ _ Er) as [_ Hall].
+  rewrite <- (read_days_ext read' read), Er; [exact H|].
+  intros i Hi. destruct (Hall i Hi) as [rsi Hi']. destruct (Hr (start + Z.of_nat i)%Z) as [E|E]; [exact E | congruence].
+Qed.
+
+Lemma read_with_fault_cases fault read d :
+  read_with_fault fault read d = read d \/ read_with_fault fault read d = RErr.
+Proof.
+  unfold read_with_fault. destruct fault as [[fd k]|]; [|left; reflexivity].
+  destruct (Z.eqb d fd); [|left; reflexivity]. destruct (read d); auto.
+Qed.
+
+Theorem chart_read_fault_is_error it lts ltg cfg read start end_ fault :
+  (* never 200 with fewer reports: a chart produced under a fault is the fault-free chart *)
+  (forall name cd, handle_chart_fault it lts ltg fault cfg read start end_ = ChartOk name cd ->
+                   handle_chart it lts ltg cfg read start end_ = ChartOk name cd) /\
+  (* and a fault on a day of the range whose merged object exists fails the request *)
+  (forall fd k, fault = Some (fd, k) -> (start <= fd <= end_)%Z -> read fd <> RNotFound ->
+                forall name cd, handle_chart_fault it lts ltg fault cfg read start end_ <> ChartOk name cd).
+Proof.
+  split.
+  - intros name cd H. apply (faulty_read_chart it lts ltg cfg read (read_with_fault fault read)); [|exact H].
+    intro d. apply read_with_fault_cases.
+  - intros fd k -> Hfd Hnf name cd H. unfold handle_chart_fault, handle_chart in H.
+    destruct (Z.ltb end_ start); [discriminate|].
+    destruct (read_days (read_with_fault (Some (fd, k)) read) start (Z.to_nat (end_ - start + 1))) as [| |rs] eqn:Er; try discriminate.
+    destruct (read_days_ok _ _ _ _ Er) as [_ Hall].
+    destruct (Hall (Z.to_nat (fd - start)) ltac:(lia)) as [rsi Hi].
+    replace (start + Z.of_nat (Z.to_nat (fd - start)))%Z with fd in Hi by lia.
+    unfold read_with_fault in Hi. rewrite Z.eqb_refl in Hi. destruct (read fd); [contradiction | discriminate | discriminate].
+Qed.
